@@ -464,7 +464,7 @@ class _RecCfg(dict):
 
 
 class _Code:
-    _model = ('co_varnames', 'co_argcount', 'co_kwonlyargcount')
+    _model = ('co_varnames', 'co_argcount', 'co_kwonlyargcount', 'co_posonlyargcount', 'co_flags')
 
     def __init__(self, fn):
         a = fn.args
@@ -478,6 +478,8 @@ class _Code:
         self.co_varnames = tuple(pos + kwo + extra + locs)
         self.co_argcount = len(pos)
         self.co_kwonlyargcount = len(kwo)
+        self.co_posonlyargcount = len(a.posonlyargs)
+        self.co_flags = 0x03 | (0x04 if a.vararg else 0) | (0x08 if a.kwarg else 0)
 
 
 class _FnDesc:
